@@ -18,6 +18,9 @@ DECLS = [
     dict(name="tab", c="const unsigned char tab[4] = {3, 60, 129, 250}", kind="a", w=8, sg=False, n=4, rom=[3, 60, 129, 250]),
     dict(name="p", c="char *p", kind="p", w=8, sg=False, n=1),
     dict(name="sca", c="signed char sca[4]", kind="a", w=8, sg=True, n=4),
+    # plain char objects: their signedness is that of the -fsigned_char / -funsigned_char option
+    dict(name="pc", c="char pc", kind="s", w=8, sg=False, n=1),
+    dict(name="pca", c="char pca[4]", kind="a", w=8, sg=False, n=4),
     # identifiers that begin with a keyword
     dict(name="elsev", c="unsigned char elsev", kind="s", w=8, sg=False, n=1),
     dict(name="returnv", c="unsigned char returnv", kind="s", w=8, sg=False, n=1),
